@@ -610,7 +610,10 @@ class CreatePatch(LifeCycle):
     def on_raise(self, cx, a, exc):
         if exc.cls == "ValueError":
             return [("refused-without-effect", z3.BoolVal(not cx.fx), "a refused create_patch has no effect")]
-        return [("failed-create-leaves-record-unchanged", z3.And(files_of(a.self).ext_eq(a.old_files), a.self.fields["_ublocks"].same(cx, a.old_ublocks)), "if the new file cannot be created the record object is unchanged")]
+        return [
+            ("failed-create-leaves-record-unchanged", z3.And(files_of(a.self).ext_eq(a.old_files), a.self.fields["_ublocks"].same(cx, a.old_ublocks)), "if the new file cannot be created the record object is unchanged"),
+            ("failed-create-touches-no-file", z3.BoolVal(not [e for e in cx.fx if e[0] in WRITE_KINDS]), "if the new file cannot be created (e.g. a file of that name exists) nothing on disk is written, replaced or removed: a file the call did not create is never deleted"),
+        ]
 
     def ensures(self, cx, a, res):
         rec = a.self
